@@ -62,7 +62,8 @@ def _fresh_value(key, v, strs, est=None, skip=()):
         return True, int(v) + 1
     if isinstance(v, (float, numpy.floating)):
         return True, float(v) * 0.5 + 0.125
-    if isinstance(v, str):
+    if isinstance(v, str) or (v is None and base in strs):
+        # menus may contain None (a documented synonym such as fit_improve_algo=None)
         alts = [a for a in strs.get(base, []) if a != v]
         return (True, alts[0]) if alts else (False, None)
     if is_est(v):
@@ -96,7 +97,8 @@ def _category(key, v):
     if is_est(v):
         return "nested estimator" if nested else "estimator"
     t = ("bool" if isinstance(v, (bool, numpy.bool_)) else "int" if isinstance(v, (int, numpy.integer)) else
-         "float" if isinstance(v, (float, numpy.floating)) else "str" if isinstance(v, str) else "other")
+         "float" if isinstance(v, (float, numpy.floating)) else "str" if isinstance(v, str) else
+         "none" if v is None else "other")
     return ("nested " if nested else "plain ") + t
 
 
